@@ -39,7 +39,7 @@ class SemError(Exception):
 
 
 def is_arith(t):
-    return t[0] in ('var', 'num', 'arith', 'ite', 'ref')
+    return t[0] in ('var', 'num', 'arith', 'ite', 'ref', 'aprime')
 
 
 # ---------------------------------------------------------------- printing
@@ -62,6 +62,8 @@ def to_str(t, spell=None):
             return 'TRUE' if t[1] else 'FALSE'
         if k in ('ref', 'bref'):
             return t[1]
+        if k in ('aprime', 'bprime'):
+            return f"({rec(t[1])})'"
         if k == 'arith':
             return f'({rec(t[2])} {t[1]} {rec(t[3])})'
         if k == 'cmp' or k == 'beq':
@@ -99,8 +101,10 @@ class Env:
         self.bits = bits
         self.bound = {}   # name -> z3 term (quantified / LET-bound value)
         self.defs = {}    # operator name -> tree
+        self.force_prime = False   # inside a primed sub-expression every state variable is read primed
 
     def ivar(self, name, primed):
+        primed = primed or self.force_prime
         if not primed and name in self.bound:
             return self.bound[name]
         if primed and (name + "'") in self.bound:
@@ -111,6 +115,7 @@ class Env:
         return link.bv_of(name, d, self.bits, primed)
 
     def bvar(self, name, primed):
+        primed = primed or self.force_prime
         key = name + ("'" if primed else '')
         if key in self.bound:
             return self.bound[key]
@@ -123,6 +128,12 @@ class Env:
         e = Env(self.table, self.bits)
         e.bound = dict(self.bound)
         e.defs = dict(self.defs)
+        e.force_prime = self.force_prime
+        return e
+
+    def primed_copy(self):
+        e = self.child()
+        e.force_prime = True
         return e
 
 
@@ -144,6 +155,8 @@ def to_z3(t, env):
         if k == 'ref':
             d = env.defs[t[1]]
             return ar(d, env)
+        if k == 'aprime':
+            return ar(t[1], env.primed_copy())
         if k == 'arith':
             a = ar(t[2], env)
             b = ar(t[3], env)
@@ -172,6 +185,8 @@ def to_z3(t, env):
             return z3.BoolVal(t[1])
         if k == 'bref':
             return bo(env.defs[t[1]], env)
+        if k == 'bprime':
+            return bo(t[1], env.primed_copy())
         if k == 'cmp':
             a = ar(t[2], env)
             b = ar(t[3], env)
@@ -265,10 +280,15 @@ def eval_py(t, table, values, defs=None):
     """Evaluate with Python ints. `values`: name (with prime) -> int/bool."""
     defs = defs or {}
 
-    def rec(t, vals, defs):
+    def rec(t, vals, defs, force=False):
         k = t[0]
         if k in ('var', 'bvar'):
-            return vals[t[1] + ("'" if t[2] else '')]
+            return vals[t[1] + ("'" if (t[2] or force) else '')]
+        if k in ('aprime', 'bprime'):
+            return rec(t[1], vals, defs, True)
+        if force:
+            # re-enter with the flag kept for every child
+            return _forced(t, vals, defs)
         if k == 'num':
             return t[1]
         if k == 'const':
@@ -324,6 +344,9 @@ def eval_py(t, table, values, defs=None):
             return rec(t[2], vals, d2)
         raise SemError(k)
 
+    def _forced(t, vals, defs):
+        return rec(_prime_all(t, defs), vals, {})
+
     def q(kind, names, body, vals, defs):
         if not names:
             return bool(rec(body, vals, defs))
@@ -345,6 +368,27 @@ def eval_py(t, table, values, defs=None):
     return rec(t, values, defs)
 
 
+def _prime_all(t, defs):
+    """Tree with every state variable primed and every reference expanded (plain Python replay)."""
+    if not isinstance(t, tuple):
+        return t
+    k = t[0]
+    if k in ('var', 'bvar'):
+        return (k, t[1], True)
+    if k in ('ref', 'bref'):
+        return _prime_all(defs[t[1]], defs)
+    if k in ('aprime', 'bprime'):
+        return _prime_all(t[1], defs)
+    if k == 'let':
+        d2 = dict(defs)
+        for n, e in t[1]:
+            d2[n] = e
+        return _prime_all(t[2], d2)
+    if k in ('forall', 'exists'):
+        return (k, t[1], _prime_all(t[2], defs))
+    return tuple(_prime_all(c, defs) if isinstance(c, tuple) else c for c in t)
+
+
 # ---------------------------------------------------------------- widths
 
 def width(t, table, defs=None):
@@ -361,6 +405,8 @@ def width(t, table, defs=None):
         return max(abs(t[1]).bit_length(), 1) + 1
     if k == 'ref':
         return width(defs[t[1]], table, defs)
+    if k == 'aprime':
+        return width(t[1], table, defs)
     if k == 'ite':
         return max(width(t[2], table, defs), width(t[3], table, defs))
     if k == 'arith':
@@ -397,7 +443,7 @@ def max_width(t, table, defs=None):
     return best[0]
 
 
-_KINDS = {'var', 'num', 'arith', 'ite', 'ref', 'bvar', 'const', 'cmp', 'beq',
+_KINDS = {'aprime', 'bprime', 'var', 'num', 'arith', 'ite', 'ref', 'bvar', 'const', 'cmp', 'beq',
           'not', 'bin', 'bite', 'in', 'forall', 'exists', 'let', 'bref'}
 
 
@@ -405,8 +451,11 @@ def free_vars(t):
     """Set of (name, primed) of variables occurring free in `t`."""
     out = set()
 
-    def rec(t, bound):
+    def rec(t, bound, force=False):
         k = t[0]
+        if k in ('aprime', 'bprime'):
+            recp(t[1])
+            return
         if k in ('var', 'bvar'):
             key = t[1] + ("'" if t[2] else '')
             if key not in bound:
@@ -423,7 +472,38 @@ def free_vars(t):
         for c in t[1:]:
             if isinstance(c, tuple) and c and isinstance(c[0], str) and c[0] in _KINDS:
                 rec(c, bound)
+    def recp(t):
+        # under a prime: every variable occurs primed; references are over-approximated by both copies
+        if not isinstance(t, tuple):
+            return
+        if t[0] in ('var', 'bvar'):
+            out.add((t[1], True))
+            return
+        for c in t[1:]:
+            if isinstance(c, tuple):
+                recp(c)
+            elif isinstance(c, list):
+                for n_e in c:
+                    if isinstance(n_e, tuple):
+                        recp(n_e[1])
     rec(t, frozenset())
+    # a primed sub-expression may reach definitions: over-approximate by the primed copy of every variable
+    names, has_prime = set(), [False]
+
+    def walk(t):
+        if isinstance(t, tuple):
+            if t and t[0] in ('aprime', 'bprime'):
+                has_prime[0] = True
+            if t and t[0] in ('var', 'bvar'):
+                names.add(t[1])
+            for c in t[1:] if t and isinstance(t[0], str) else t:
+                walk(c)
+        elif isinstance(t, list):
+            for c in t:
+                walk(c)
+    walk(t)
+    if has_prime[0]:
+        out.update((n, True) for n in names)
     return out
 
 
